@@ -7,6 +7,7 @@ import (
 	"github.com/platinummonkey/go-concurrency-limits/core"
 	"github.com/platinummonkey/go-concurrency-limits/limit"
 	"github.com/platinummonkey/go-concurrency-limits/limit/functions"
+	"github.com/platinummonkey/go-concurrency-limits/measurements"
 )
 
 // Shared pieces of the history driver for the limit algorithms
@@ -30,11 +31,12 @@ type algoCfg struct {
 	WinSize        int32
 	WinThresh      int64
 	DebugLog       bool
+	Measure        string // vegas: "" (default) | minimum | single: caller-supplied no-load measurement
 }
 
 func (c algoCfg) String() string {
-	return fmt.Sprintf("%s{initial=%d min=%d max=%d smoothing=%g backoff=%g inc=%d probeMult=%d probeInterval=%d q=%d tol=%g longWindow=%d wrap=%q win=[%d,%d,%d,%d] debug=%v}",
-		c.Name, c.Initial, c.Min, c.Max, c.Smoothing, c.Backoff, c.IncreaseBy, c.ProbeMult, c.ProbeInterval, c.QFix, c.Tolerance, c.LongWindow, c.Wrap, c.WinMin, c.WinMax, c.WinSize, c.WinThresh, c.DebugLog)
+	return fmt.Sprintf("%s{initial=%d min=%d max=%d smoothing=%g backoff=%g inc=%d probeMult=%d probeInterval=%d q=%d tol=%g longWindow=%d wrap=%q win=[%d,%d,%d,%d] debug=%v measure=%q}",
+		c.Name, c.Initial, c.Min, c.Max, c.Smoothing, c.Backoff, c.IncreaseBy, c.ProbeMult, c.ProbeInterval, c.QFix, c.Tolerance, c.LongWindow, c.Wrap, c.WinMin, c.WinMax, c.WinSize, c.WinThresh, c.DebugLog, c.Measure)
 }
 
 type algo struct {
@@ -78,6 +80,7 @@ func drawAlgoCfg(t *Tape, names []string, wraps []string) algoCfg {
 		if boundary {
 			c.Max = []int{1000, 1005, 2000, 999}[t.Intn(4, "max-boundary")]
 		}
+		c.Measure = []string{"", "", "", "minimum", "single"}[t.Intn(5, "vegas-measure")]
 	case "gradient":
 		c.Min = 1 + t.Intn(c.Initial, "min")
 		c.Max = c.Initial + t.Intn(1200, "max-above")
@@ -150,7 +153,14 @@ func buildAlgo(c algoCfg, withRegistry bool) (*algo, error) {
 		a.Inner = l
 		a.Lo, a.Hi = 1, math.MaxInt32
 	case "vegas":
-		l := limit.NewVegasLimitWithRegistry("vegas", c.Initial, nil, c.Max, c.Smoothing, nil, nil, nil, nil, nil, c.ProbeMult, lg, reg)
+		var meas core.MeasurementInterface
+		switch c.Measure {
+		case "minimum":
+			meas = &measurements.MinimumMeasurement{}
+		case "single":
+			meas = &measurements.SingleMeasurement{}
+		}
+		l := limit.NewVegasLimitWithRegistry("vegas", c.Initial, meas, c.Max, c.Smoothing, nil, nil, nil, nil, nil, c.ProbeMult, lg, reg)
 		a.Inner = l
 		a.Lo, a.Hi = 1, maxInt(c.Max, c.Initial)
 		a.NoLoad = l.RTTNoLoad
